@@ -150,7 +150,9 @@ def selectors(names):
            re.escape(names[-1]), 'zzz', '(?i)' + names[0].upper(), '(?i)A.*|zzz',
            [], [names[0]], list(names), [names[-1], 'nope'], 0, -1, k - 1, -k, k, -k - 1]
     if k > 1:
-        out += [1, [names[0], names[-1]], names[:2], [names[1]]]
+        out += [1, [names[0], names[-1]], names[:2], [names[1]],
+                # a list is a SET of names: its order and repetitions mean nothing (the package order stays)
+                list(reversed(names)), [names[-1], names[0], names[-1]]]
     seen, uniq = set(), []
     for s in out:
         key = json.dumps(s)
